@@ -102,12 +102,13 @@ func runC02(r *mc.Run) {
 	r.Assumptions = []string{"the sender's account sequence (bumped by the ante handler for any included tx) is not part of the proposal's effect", "BLS unforgeability"}
 	menu := c02Menu(r.Thorough())
 	for _, voters := range []int{1, 0} {
-		c02Explore(r, voters, depth, menu)
+		c02Explore(r, voters, depth, menu, nil)
 	}
 	r.Sample(map[string]any{"history": aPath([]enga.ABlock{menu[2], menu[9], menu[13]})})
 }
 
-func c02Explore(r *mc.Run, voters, depth int, menu []enga.ABlock) {
+func c02Explore(r *mc.Run, voters, depth int, menu []enga.ABlock, only []enga.ABlock) {
+	treeRecheck(r, func(p *mc.Run, o []enga.ABlock) { c02Explore(p, voters, depth, menu, o) })
 	cfg := c08Cfg()
 	cfg.Voters = cfg.Voters[:voters]
 	root, err := enga.NewWorld(cfg)
@@ -220,6 +221,7 @@ func c02Explore(r *mc.Run, voters, depth int, menu []enga.ABlock) {
 			return true
 		},
 	}
+	t.Only = only
 	t.Explore(root)
 	_ = sim.FaultNone
 }
